@@ -95,8 +95,13 @@ def run(repo='/repo', tier='quick'):
     res.rule('C11.b', 'every flag constant that some condition tests has a raise site in the same flag word')
     res.rule('C11.c', 'a repeated header line always leaves HTP_FIELD_REPEATED on the stored header (also when the repetition cap drops the line)')
     f = db.get('htp_tx_process_request_headers')
-    TE = ('te', '!=', '0')
-    CL = ('cl', '!=', '0')
+    te = P.table_lookup_local(f, 'transfer-encoding')
+    cl = P.table_lookup_local(f, 'content-length')
+    hh = P.table_lookup_local(f, 'host')
+    if not (te and cl and hh):
+        raise AnalysisBroken('the Transfer-Encoding / Content-Length / Host lookups were not found in htp_tx_process_request_headers')
+    TE = (te, '!=', '0')
+    CL = (cl, '!=', '0')
     tok = None
     for b in f.blocks:
         c = f.cond_of(b)
@@ -106,28 +111,28 @@ def run(repo='/repo', tier='quick'):
         raise AnalysisBroken('the chunked-token test was not found in htp_tx_process_request_headers')
     CHUNKED = (tok, '==', 'HTP_OK')
     OLD = ('tx->request_protocol_number', '<', 'HTP_PROTOCOL_1_1')
-    FOLDED = ('(cl->flags & HTP_FIELD_FOLDED)', '!=', '0')
-    REP = ('(cl->flags & HTP_FIELD_REPEATED)', '!=', '0')
+    FOLDED = ('(%s->flags & HTP_FIELD_FOLDED)' % cl, '!=', '0')
+    REP = ('(%s->flags & HTP_FIELD_REPEATED)' % cl, '!=', '0')
     BADCL = ('tx->request_content_length', '<', '0')
-    noCL = [('cl', '==', '0')]
-    noTE = [('te', '==', '0')]
+    noCL = [(cl, '==', '0')]
+    noTE = [(te, '==', '0')]
     rows = [
         ('T-E chunked + C-L => SMUGGLING, chunked framing', [(TE, []), (CHUNKED, noTE), (CL, [])], ['HTP_REQUEST_SMUGGLING'], 'HTP_CODING_CHUNKED'),
         ('T-E chunked => chunked framing', [(TE, []), (CHUNKED, noTE)], [], 'HTP_CODING_CHUNKED'),
         ('T-E chunked below HTTP/1.1 => SMUGGLING, INVALID_T_E', [(TE, []), (CHUNKED, noTE), (OLD, [])], ['HTP_REQUEST_SMUGGLING', 'HTP_REQUEST_INVALID_T_E'], None),
         ('more than one C-L => SMUGGLING', [(CL, []), (REP, noCL)], ['HTP_REQUEST_SMUGGLING'], None),
         ('folded C-L => SMUGGLING', [(CL, []), (FOLDED, noCL)], ['HTP_REQUEST_SMUGGLING'], None),
-        ('unparseable C-L (no T-E) => INVALID_C_L, INVALID, invalid framing', [(('te', '==', '0'), []), (CL, []), (BADCL, noCL)], ['HTP_REQUEST_INVALID_C_L', 'HTP_REQUEST_INVALID'], 'HTP_CODING_INVALID'),
+        ('unparseable C-L (no T-E) => INVALID_C_L, INVALID, invalid framing', [((te, '==', '0'), []), (CL, []), (BADCL, noCL)], ['HTP_REQUEST_INVALID_C_L', 'HTP_REQUEST_INVALID'], 'HTP_CODING_INVALID'),
         ('unsupported T-E => INVALID_T_E, INVALID, invalid framing', [(TE, []), ((tok, '!=', 'HTP_OK'), noTE)], ['HTP_REQUEST_INVALID_T_E', 'HTP_REQUEST_INVALID'], 'HTP_CODING_INVALID'),
     ]
-    paths, start = region_paths(f, lambda st: any(v['name'] == 'te' for d in nodes(st, lambda y: y.get('k') == 'decl') for v in d['vars']),
+    paths, start = region_paths(f, lambda st: any(v['name'] == te for d in nodes(st, lambda y: y.get('k') == 'decl') for v in d['vars']),
                                 lambda bb, ii, s: (P.canon(s) or ('',))[0] == 'tx->request_transfer_coding' and f.cond_of(bb) is not None and f.blocks[bb]['stmts'][-1] is s)
     sig = [('te', TE), ('chunked', CHUNKED), ('cl', CL), ('old-proto', OLD), ('repeated', REP), ('folded', FOLDED), ('bad-cl', BADCL)]
     n = check_rows(res, 'C11.a', f.name, paths, rows, 'request_transfer_coding',
                    ['HTP_REQUEST_SMUGGLING', 'HTP_REQUEST_INVALID_T_E', 'HTP_REQUEST_INVALID_C_L'], sig)
     res.floor('C11.a', 'paths through the T-E/C-L region', n, 8)
     # the lookups that define te / cl
-    for var, hname in (('te', 'transfer-encoding'), ('cl', 'content-length')):
+    for var, hname in ((te, 'transfer-encoding'), (cl, 'content-length')):
         ok = False
         for b, i, st in f.stmts():
             for d in nodes(st, lambda y: y.get('k') == 'decl'):
@@ -138,7 +143,7 @@ def run(repo='/repo', tier='quick'):
         res.check(ok, 'C11.a', '%s:%s-lookup' % (f.name, var), '%s is the case-folding lookup of "%s" in the request headers' % (var, hname),
                   '%s is no longer htp_table_get_c(tx->request_headers, "%s")' % (var, hname), f.loc)
     # ---- Host table
-    H0 = ('h', '==', '0')
+    H0 = (hh, '==', '0')
     NEW = ('tx->request_protocol_number', '>=', 'HTP_PROTOCOL_1_1')
     HV = ('hostname', '!=', '0')
     UH = ('tx->request_hostname', '!=', '0')
@@ -148,11 +153,11 @@ def run(repo='/repo', tier='quick'):
     P3 = ('tx->request_port_number', '!=', 'port')
     hrows = [
         ('no Host on HTTP/1.1 => HOST_MISSING', [(H0, []), (NEW, [])], ['HTP_HOST_MISSING'], None),
-        ('URI host and valid header host differ => HOST_AMBIGUOUS', [(('h', '!=', '0'), []), (HV, [H0]), (UH, []), (DIFF, [H0, ('hostname', '==', '0'), ('tx->request_hostname', '==', '0')])], ['HTP_HOST_AMBIGUOUS'], None),
-        ('URI port and header port differ => HOST_AMBIGUOUS', [(('h', '!=', '0'), []), (HV, [H0]), (UH, []), (P1, [H0]), (P2, [H0]), (P3, [H0])], ['HTP_HOST_AMBIGUOUS'], None),
-        ('invalid header host with URI host => HOST_AMBIGUOUS', [(('h', '!=', '0'), []), (('hostname', '==', '0'), [H0]), (UH, [])], ['HTP_HOST_AMBIGUOUS'], None),
+        ('URI host and valid header host differ => HOST_AMBIGUOUS', [((hh, '!=', '0'), []), (HV, [H0]), (UH, []), (DIFF, [H0, ('hostname', '==', '0'), ('tx->request_hostname', '==', '0')])], ['HTP_HOST_AMBIGUOUS'], None),
+        ('URI port and header port differ => HOST_AMBIGUOUS', [((hh, '!=', '0'), []), (HV, [H0]), (UH, []), (P1, [H0]), (P2, [H0]), (P3, [H0])], ['HTP_HOST_AMBIGUOUS'], None),
+        ('invalid header host with URI host => HOST_AMBIGUOUS', [((hh, '!=', '0'), []), (('hostname', '==', '0'), [H0]), (UH, [])], ['HTP_HOST_AMBIGUOUS'], None),
     ]
-    hpaths, hstart = region_paths(f, lambda st: any(v['name'] == 'h' for d in nodes(st, lambda y: y.get('k') == 'decl') for v in d['vars']),
+    hpaths, hstart = region_paths(f, lambda st: any(v['name'] == hh for d in nodes(st, lambda y: y.get('k') == 'decl') for v in d['vars']),
                                   lambda bb, ii, s: any(v['name'] == 'ct' for d in nodes(s, lambda y: y.get('k') == 'decl') for v in d['vars']))
     hsig = [('no-host', H0), ('http1.1', NEW), ('hdr-valid', HV), ('uri-host', UH), ('names-differ', DIFF), ('uport', P1), ('hport', P2), ('ports-differ', P3)]
     n = check_rows(res, 'C11.h', f.name, hpaths, hrows, 'request_transfer_coding', ['HTP_HOST_MISSING', 'HTP_HOST_AMBIGUOUS'], hsig)
@@ -161,7 +166,7 @@ def run(repo='/repo', tier='quick'):
     for b, i, st in f.stmts():
         for d in nodes(st, lambda y: y.get('k') == 'decl'):
             for v in d['vars']:
-                if v['name'] == 'h' and 'init' in v:
+                if v['name'] == hh and 'init' in v:
                     c = strip(v['init'])
                     ok = c.get('callee') == 'htp_table_get_c' and strip(c['args'][1]).get('v') == 'host'
     res.check(ok, 'C11.h', f.name + ':host-lookup', 'h is the case-folding lookup of "host"', 'h is no longer htp_table_get_c(..., "host")', f.loc)
@@ -178,16 +183,21 @@ def run(repo='/repo', tier='quick'):
         # the validation result must be tested whenever a hostname exists
     # ---- response arm
     r = db.get('htp_connp_RES_BODY_DETERMINE')
+    rte = P.table_lookup_local(r, 'transfer-encoding')
+    rcl = P.table_lookup_local(r, 'content-length')
+    if not (rte and rcl):
+        raise AnalysisBroken('the Transfer-Encoding / Content-Length lookups were not found in htp_connp_RES_BODY_DETERMINE')
+    TE, CL, noTE, noCL = (rte, '!=', '0'), (rcl, '!=', '0'), [(rte, '==', '0')], [(rcl, '==', '0')]
     rtok = None
     for b in r.blocks:
         c = r.cond_of(b)
-        if c and (P.canon(c[0]) or ('',))[0].startswith('bstr_index_of_c_nocasenorzero(te->value'):
+        if c and (P.canon(c[0]) or ('',))[0].startswith('bstr_index_of_c_nocasenorzero(%s->value' % rte):
             rtok = P.canon(c[0])
     if rtok is None:
         res.violated('C11.r', r.name + ':chunked-test', 'the response side no longer searches Transfer-Encoding for "chunked"', r.loc)
     else:
         RCH = (rtok[0], '!=', '-1')
-        RREP = ('(cl->flags & HTP_FIELD_REPEATED)', '!=', '0')
+        RREP = ('(%s->flags & HTP_FIELD_REPEATED)' % rcl, '!=', '0')
         rrows = [
             ('response T-E chunked + C-L => SMUGGLING, chunked framing', [(TE, []), (RCH, noTE), (CL, [])], ['HTP_REQUEST_SMUGGLING'], 'HTP_CODING_CHUNKED'),
             ('response T-E chunked => chunked framing', [(TE, []), (RCH, noTE)], [], 'HTP_CODING_CHUNKED'),
@@ -203,7 +213,7 @@ def run(repo='/repo', tier='quick'):
         rp2 = []
         for atoms, events, end, seq in rp:
             facts = [a for a, bb in atoms]
-            if ('te', '==', '0') in facts:
+            if (rte, '==', '0') in facts:
                 atoms = atoms + [((rtok[0], '==', '-1'), -1)]
             rp2.append((atoms, events, end, seq))
         n = check_rows(res, 'C11.r', r.name, rp2, rrows, 'response_transfer_coding', [], rsig)
